@@ -15,24 +15,24 @@ import (
 
 // Job is one symbolic exploration: an entry function of a harness, a size and the stub configuration.
 type Job struct {
-	Name      string
-	Pkg       string // gtree | markdown | main
-	Entry     string
-	N         int
-	FSModel   bool // os.* forwarded to the harness file-system model; path.Join etc. as element-level contracts
-	Wasm      bool
-	RealParse bool     // byte-level: run the real Parser.Parse instead of its contract
-	RealScan  bool     // byte-level: run the real bufio.Scanner / strings.Reader instead of the line-splitting contract
-	MaxPaths  int      // 0 = unbounded
-	MaxSteps  int      // per-path step budget (unwinding bound); 0 = default
-	Expect    []string // assertion / reach ids that must be reached at least once (vacuity guard)
-	NoNative  bool     // no native replay available for this job
-	Sched     string   // goroutine scheduling policy: "" fifo | lifo | fifo-lastsel
-	TimeoutMs int      // per-query solver timeout
-	BudgetSec int      // wall-clock budget of the exploration (0: none); exceeding it leaves the job undecided
-	Race      bool     // happens-before data-race detection on the interpreted goroutines (race.go)
-	RaceConfirm string // native-only entry run on a -race build to confirm race@ counterexamples (default VerifRaceStress)
-	Confirm   string   // native-only entry that amplifies schedule-dependent counterexamples (leaks, deadlocks) for confirmation
+	Name        string
+	Pkg         string // gtree | markdown | main
+	Entry       string
+	N           int
+	FSModel     bool // os.* forwarded to the harness file-system model; path.Join etc. as element-level contracts
+	Wasm        bool
+	RealParse   bool     // byte-level: run the real Parser.Parse instead of its contract
+	RealScan    bool     // byte-level: run the real bufio.Scanner / strings.Reader instead of the line-splitting contract
+	MaxPaths    int      // 0 = unbounded
+	MaxSteps    int      // per-path step budget (unwinding bound); 0 = default
+	Expect      []string // assertion / reach ids that must be reached at least once (vacuity guard)
+	NoNative    bool     // no native replay available for this job
+	Sched       string   // goroutine scheduling policy: "" fifo | lifo | fifo-lastsel
+	TimeoutMs   int      // per-query solver timeout
+	BudgetSec   int      // wall-clock budget of the exploration (0: none); exceeding it leaves the job undecided
+	Race        bool     // happens-before data-race detection on the interpreted goroutines (race.go)
+	RaceConfirm string   // native-only entry run on a -race build to confirm race@ counterexamples (default VerifRaceStress)
+	Confirm     string   // native-only entry that amplifies schedule-dependent counterexamples (leaks, deadlocks) for confirmation
 }
 
 func (j Job) String() string {
